@@ -416,7 +416,7 @@ func laStructs(c *Ctx, rule string) {
 		r.ok(rule, key, pos, "child k at position P (a sum of the loop's counters, 0 at the start); P+1 after a leaf, P+1+consumed after a nested group, which recurses from P+1; child counter +1 per child, < num_children; returns P")
 	}
 	// field(): the Go field is named Title(name), tagged with the column's own name
-	fld := sp.Func("field")
+	fld := roleFunc(u, pkgPath, "structField")
 	k2 := "structs.field"
 	if fld == nil {
 		r.undecided(rule, k2, "", "structs.field not found")
